@@ -13,6 +13,10 @@
 (*     accumulator, ticket in the tail, more than K tickets, useless ticket); a       *)
 (*     shadow of the specified state steers the choices (identifiers below the        *)
 (*     current maximum once the accumulator is full);                                 *)
+(*  L  the same kind of histories (and scripted ones: tickets, a re-submitted ticket,  *)
+(*     an over-attempted one, one in the tail, each followed by further blocks of the  *)
+(*     epoch) run on ONE live chain state: accepted posteriors are committed in memory  *)
+(*     as the next prior, refused blocks are simply followed by the next block;         *)
 (*  Z, F  the two sequencers on their own.                                            *)
 (* For every block the generator states under which prior entropy (ce) and ring (rk)  *)
 (* the tickets are to be signed and whether the oracle table is needed (tab), from     *)
@@ -168,7 +172,36 @@ FamF(P, cnt) == [k \in 1..cnt |-> [ev |-> "F", P |-> P,
                                    r |-> IF k = 1 THEN [i \in 1..32 |-> 0] ELSE IF k = 2 THEN [i \in 1..32 |-> 255] ELSE Ent(k + Seed),
                                    kappa |-> IF k % 3 = 0 THEN [i \in 1..P.V |-> IF i % 2 = 0 THEN 0 ELSE i] ELSE KeysFrom((k % 3) * P.V, P.V)]]
 
+\* ---------------------------------------------------------------- family L (live state)
+\* The same kind of histories, marked live = 1: the driver loads the prior state ONCE and lets it live in
+\* the chain-state singleton across the blocks (accepted posterior committed in memory as the next prior,
+\* refused blocks simply followed by the next block), so that whatever a block - in particular a refused
+\* one - leaves behind in the carried-over accumulator shows in the later blocks of the epoch.  No offenders.
+Live(h) == [live |-> 1] @@ [h EXCEPT !.blocks = [i \in 1..Len(h.blocks) |-> [h.blocks[i] EXCEPT !.off = <<>>]]]
+\* scripted: steps [slot, n, ok]; ok = the specification accepts it (the shadow slot advances)
+RECURSIVE ScriptBlocks(_, _, _, _)
+ScriptBlocks(P, tau, steps, k) ==
+  IF steps = <<>> THEN <<>>
+  ELSE LET st == Head(steps) IN
+       <<Blk(P, tau, st.slot, st.n, 200 + k, <<>>, 1)>> \o ScriptBlocks(P, IF st.ok THEN st.slot ELSE tau, Tail(steps), k + 1)
+Step(slot, n, ok) == [slot |-> slot, n |-> n, ok |-> ok]
+T1(i) == Tk(i, i % 2, "ok")
+\* tiny: 3 + 3 + 1 tickets, a re-submitted ticket next to a fresh one (refused), an empty block, more tickets, an
+\* over-attempted ticket (refused), a ticket in the tail (refused), an empty tail block, the epoch change
+ScriptL12(k) == <<Step(1, <<T1(30), T1(31), T1(32)>>, TRUE), Step(2, <<T1(20), T1(21), T1(22)>>, TRUE), Step(3, <<T1(10 + k)>>, TRUE),
+                  Step(4, <<T1(5), T1(10 + k)>>, FALSE), Step(5, <<>>, TRUE), Step(6, <<T1(3), T1(4)>>, TRUE),
+                  Step(7, <<T1(1), Tk(2, 3, "ok")>>, FALSE), Step(7, <<T1(20), T1(25)>>, FALSE), Step(8, <<T1(2)>>, TRUE),
+                  Step(10, <<T1(6)>>, FALSE), Step(11, <<>>, TRUE), Step(12, <<T1(7)>>, TRUE), Step(13, <<T1(7), T1(9)>>, FALSE), Step(13, <<T1(9)>>, TRUE)>>
+\* E=4: the accumulator fills and is cut to E, then a re-submitted ticket (refused), an evicting ticket, the tail
+ScriptL4(k) == <<Step(4, <<T1(10), T1(11)>>, TRUE), Step(5, <<T1(8), T1(9)>>, TRUE), Step(6, <<T1(3 + k), T1(8)>>, FALSE),
+                 Step(6, <<T1(2)>>, TRUE), Step(7, <<>>, TRUE), Step(8, <<T1(5)>>, TRUE), Step(9, <<T1(4), T1(5)>>, FALSE), Step(9, <<T1(4), T1(6)>>, TRUE)>>
+HistL(P, U, tau0, script, k) ==
+  Live(Hist(P, U, Bases(P)[(k % 4) + 1], tau0, <<>>, Kys(DefaultKeys(P, InitVals(P.V).kappa)), 4 * k, ScriptBlocks(P, tau0, script, 1)))
+FamL == <<HistL(P12, 40, 0, ScriptL12(0), 1), HistL(P12, 40, 0, ScriptL12(1), 2), HistL(P4, 12, 3, ScriptL4(0), 3), HistL(P4, 12, 3, ScriptL4(1), 4)>>
+LiveH(P, U, count, nblocks) == [k \in 1..count |-> Live(HistH(P, U, 5000 + k, nblocks))]
+
 Cases == FamA
+         \o FamL \o LiveH(P4, 12, IF Thorough THEN 1500 ELSE 60, 12) \o LiveH(P12, 40, IF Thorough THEN 800 ELSE 30, 24)
          \o FamH(P4, 12, IF Thorough THEN 2500 ELSE 120, 12)
          \o FamH(P12, 40, IF Thorough THEN 1200 ELSE 40, 24)
          \o FamH(PF, 1500, IF Thorough THEN 2 ELSE 0, 30)
